@@ -66,6 +66,21 @@ Proof.
   intros. unfold set_computed_input, put_info. cbn [set_nodes s_world s_ext].
   destruct (get_info s n); [split; [apply (sg_world _ _ (unwire_sbg _ _ _ _))|apply (sg_ext _ _ (unwire_sbg _ _ _ _))]|auto].
 Qed.
+Lemma sess_fold_ext : forall sets cur rs batch cur' rs' batch',
+  fold_left fsess_step sets (cur, rs, batch) = (cur', rs', batch') -> s_ext cur' = s_ext cur.
+Proof.
+  induction sets as [|[v x] r IH]; intros cur rs batch cur' rs' batch' H; cbn [fold_left] in H.
+  - inversion H. reflexivity.
+  - rewrite fsess_step_eq in H. apply IH in H. rewrite H. apply (proj2 (set_input_we _ _ _)).
+Qed.
+Lemma refresh_fold_ext0 : forall l cur batch cur' batch',
+  fold_left refresh_step l (cur, batch) = (cur', batch') -> s_ext cur' = s_ext cur.
+Proof.
+  induction l as [|e r IH]; intros cur batch cur' batch' H; cbn [fold_left] in H.
+  - inversion H. reflexivity.
+  - unfold refresh_step at 2 in H. cbv zeta in H. apply IH in H. rewrite H. rewrite (proj2 (set_input_we _ _ _)). reflexivity.
+Qed.
+
 Lemma set_input_nofwd : forall s n v, old_fwd s n = [] ->
   s_bwd (set_computed_input s n v) = s_bwd s /\ s_dirty (set_computed_input s n v) = s_dirty s.
 Proof.
